@@ -5,11 +5,11 @@ package main
 // parameter preconditions at every caller of an unexported function.
 
 import (
-	"strings"
 	"fmt"
-	"os"
 	"go/token"
 	"go/types"
+	"os"
+	"strings"
 
 	"golang.org/x/tools/go/ssa"
 )
